@@ -20,6 +20,8 @@ try:
   for fn in os.listdir(src):
     if os.path.isfile(os.path.join(src, fn)):
       shutil.copy(os.path.join(src, fn), dst)
+    elif os.path.isdir(os.path.join(src, fn)) and fn != '__pycache__':
+      shutil.copytree(os.path.join(src, fn), os.path.join(dst, fn), ignore=shutil.ignore_patterns('__pycache__'))     # support packages of a demo
   demo = 'out/%s/demo.py' % mk
   rc1, o1 = run('%s %s' % (PY, demo), cwd=wt, timeout=120)
   res['demo_clean_rc'] = rc1
@@ -42,6 +44,9 @@ if ok:
   os.makedirs(out, exist_ok=True)
   shutil.copy(os.path.join(src, 'patch.diff'), out)
   shutil.copy(os.path.join(src, 'demo.py'), out)
+  for fn in os.listdir(src):
+    if os.path.isdir(os.path.join(src, fn)) and fn != '__pycache__':
+      shutil.copytree(os.path.join(src, fn), os.path.join(out, fn), ignore=shutil.ignore_patterns('__pycache__'), dirs_exist_ok=True)
   meta = {}
   try:
     meta = json.load(open(os.path.join(src, 'meta.json')))
